@@ -1316,7 +1316,22 @@ func (x *Exec) makeIface(st *State, v Value, from, to types.Type) Value {
 		}
 		if ok {
 			if cn, ok := w.dynCtor[typeKey(n)]; ok {
-				return Mk(cn, x.mustTerm(v, "MakeInterface"))
+				payload := x.mustTerm(v, "MakeInterface")
+				if !x.pureMode && x.specEval == 0 {
+					for _, c := range w.nodeInv[typeKey(n)] {
+						fn := st.top().fn
+						env := x.newSpecEnv(st, st, fn)
+						env.vars[c.Param] = payload
+						g, err := env.evalBool(c.Expr)
+						if err != nil {
+							x.contractError(c, err)
+							continue
+						}
+						// a node that becomes an AST interface value has its invariant from then on
+						x.oblige(st, "node-invariant", n.Obj().Name()+":"+c.Label, c.Props, g, token.NoPos)
+					}
+				}
+				return Mk(cn, payload)
 			}
 		}
 		x.outside = "MakeInterface to AST interface from " + from.String()
